@@ -81,7 +81,7 @@ MANIFEST = dict(
 )
 
 IMPORTS = ['Coq.Lists.List', 'Coq.NArith.NArith', 'SV.Fmt.VpkDir', 'SV.SM.Vpk', 'SV.Fmt.VpkArchName', 'SV.SM.VpkCorr', 'SV.Gen.VpkPlace_gen',
-           'SV.Gen.VpkArchName_gen', 'SV.Fmt.VpkNullStr', 'SV.Gen.VpkNullStr_gen', 'SV.SM.VpkNested', 'SV.Gen.VpkNested_gen', 'SV.SM.VpkApi', 'SV.Gen.VpkApi_gen', 'SV.SM.VpkNestedMap', 'SV.SM.VpkPlace', 'SV.Fmt.VpkNameJoin', 'SV.Gen.VpkNames_gen', 'SV.Fmt.VpkDirProg', 'SV.Fmt.VpkDirRead', 'SV.Gen.VpkDirProg_gen', 'SV.SM.VpkPlaceTable', 'SV.SM.VpkGenMachine', 'SV.SM.VpkWriteOrder']
+           'SV.Gen.VpkArchName_gen', 'SV.Fmt.VpkNullStr', 'SV.Gen.VpkNullStr_gen', 'SV.SM.VpkNested', 'SV.Gen.VpkNested_gen', 'SV.SM.VpkApi', 'SV.Gen.VpkApi_gen', 'SV.SM.VpkNestedMap', 'SV.SM.VpkPlace', 'SV.Fmt.VpkNameJoin', 'SV.Gen.VpkNames_gen', 'SV.Fmt.VpkDirProg', 'SV.Fmt.VpkDirRead', 'SV.Gen.VpkDirProg_gen', 'SV.SM.VpkPlaceTable', 'SV.SM.VpkGenMachine', 'SV.SM.VpkWriteOrder', 'SV.SM.VpkListing']
 PRE = 'Import ListNotations. Open Scope N_scope.\n'
 
 R_OK, R_RO, R_EXISTS, R_MISSING, R_BADNAME, R_BADIDX, R_BADDIR, R_EXC = 0, 1, 2, 3, 4, 5, 6, 9
@@ -1699,6 +1699,9 @@ def run(ck: Ck) -> None:
             'listing_len_counts_every_file': 'g_walk_len',
             'listing_filenames_default_walks_every_file': 'g_walk_filenames',
             'listing_fileinfos_default_walks_every_file': 'g_walk_fileinfos',
+            # the same two methods executed with their arguments given: premise of c13_listing_tables_list_matching
+            'listing_filenames_with_arguments_selects_extension_and_folder_prefix': 'walks_ok g_walks_filenames',
+            'listing_fileinfos_with_arguments_selects_extension_and_folder_prefix': 'walks_ok g_walks_fileinfos',
             'tree_strings_all_go_through_the_codec': 'andb g_tree_strings_read_by_iter_nullstr g_tree_strings_written_by_write_nullstring',
         }, name='vpkinst')
         import time as _t
